@@ -161,6 +161,23 @@ func (c14) Generate(r *core.Rng, run int, tier string) *core.History {
 		}
 		return h
 	}
+	if run == 4 || run == 5 {
+		// the only change since the last auto-save is made by a function assigning an existing global
+		h.Strs["probe"] = "autosave-after-write-from-function"
+		h.Cfg["maxvaluelen"] = 0
+		h.Events = []core.Event{
+			{Ev: "bind", Name: "v_a", Text: "v_a = 1", Key: "int"},
+			{Ev: "bind", Name: "v_l", Text: "v_l = [1, 2]", Key: "array-small"},
+			{Ev: "func", Name: "setva", Text: "func setva(v) { v_a = v }", Key: "func-named", Args: nil},
+			{Ev: "save", Key: "autosave"},
+			{Ev: "mutate", Name: "v_a", Text: core.Pick(r, []string{"setva(5)", "setva(7); nil", "(() => { v_a = 9 })()"})},
+			{Ev: "save", Key: "autosave-notouch"}, {Ev: "restart"}, {Ev: "load", Key: "autoload"},
+		}
+		if run == 5 {
+			h.Events[4] = core.Event{Ev: "mutate", Name: "v_l", Text: core.Pick(r, []string{"(() => { v_l = [3] })()", "(() => { v_l = v_l + [4] })()"})}
+		}
+		return h
+	}
 	if run == 1 {
 		h.Strs["probe"] = "line-longer-than-64KiB"
 		h.Cfg["maxvaluelen"] = 0
@@ -339,6 +356,20 @@ func (c14) Execute(h *core.History) *core.Outcome {
 	for i := range h.Events {
 		e := &h.Events[i]
 		switch e.Ev {
+		case "mutate":
+			// a plain input that changes an existing binding (possibly from inside a function)
+			if r := sess.Input(e.Text, nil); r.Class != "value" {
+				st.Discarded = true
+				st.Panic(fmt.Sprintf("mutate %q: %s %v", e.Text, r.Class, truncAll(r.Errs)))
+				break
+			}
+			for _, b := range bound {
+				if b.name == e.Name {
+					b.canon, _ = sess.Observe(e.Name)
+				}
+			}
+			saves = 0 // the next save is not a re-save of the same state
+			shape = append(shape, "mutate")
 		case "bind", "func":
 			r := sess.Input(e.Text, nil)
 			if r.Class != "value" {
@@ -387,6 +418,14 @@ func (c14) Execute(h *core.History) *core.Outcome {
 					report(&core.Violation{Oracle: "save-fails", Event: i, Sig: "C14|save-fails|" + e.Key, Detail: err.Error()})
 				}
 				_ = os.WriteFile(lastFile, b.Bytes(), 0o644)
+			case "autosave-notouch":
+				// exactly what the REPL does after an input: save if (and only if) the state says something changed
+				lastFile = repl.AutoSaveFile
+				if err := repl.AutoSave(sess.St, opts); err != nil {
+					report(&core.Violation{Oracle: "save-fails", Event: i, Sig: "C14|save-fails|" + e.Key, Detail: err.Error()})
+				}
+				var b bytes.Buffer
+				lastCount, _ = sess.St.SaveGlobals(&b)
 			case "autosave":
 				lastFile = repl.AutoSaveFile
 				// force a change so AutoSave does not skip, exactly as a user input would
